@@ -1,4 +1,5 @@
 import VerifModel.Model.Aggregator
+import VerifModel.Model.Prob
 /-
   Model of the `-T` pre-aggregation of verif/data.py:
 
@@ -133,9 +134,10 @@ def chunks (m : Nat) (data : List XR) (count : Nat) : List Vec :=
 
 /-- `Data.get_scores(field, 0, axis.All())` for a single input with `dim_agg_*` set: load the
 field's array, pre-aggregate it over the input's FULL series, derive the field, then cut to the
-selected times / lead times.  `none` for the quantile field: since the repair of data.py:543 it is
-`np.quantile(pre-aggregated members, q, method="normal_unbiased")`; that estimator belongs to C08 and
-is not repeated here (the op is judged by the oracle, the model replies UNMODELLED).
+selected times / lead times.  The quantile field: since the repair of data.py:543 (3ab2f86) it is
+`np.quantile(pre-aggregated members, q, method="normal_unbiased")` = C08's estimator `Prob.ensQuantile`
+applied cell by cell to the pre-aggregated members (inner `none` = no members: the code exits with
+"does not contain").  The outer `none` (UNMODELLED) is no longer produced.
 Several inputs, PIT, other-score fields: Model/PreaggData.lean. -/
 def dataScore (f : Vec → Option XR) (scale : XR) (k : Nat) (h : XR) (times leads : List XR)
     (obs fcst ens : Arr) (field : FieldSel) (selT selL : Option (List XR)) : Option (Option Arr) :=
@@ -145,7 +147,9 @@ def dataScore (f : Vec → Option XR) (scale : XR) (k : Nat) (h : XR) (times lea
   let cells := Arr.prod (obs.dims)
   let m := (ens.dims[3]?).getD 0
   match field with
-  | .quantile _ => none
+  | .quantile q =>
+      some ((preaggArr f scale h coords k ens).bind fun a =>
+        ((chunks m a.data cells).mapM fun c => Prob.ensQuantile q c).bind fun d => cut ⟨obs.dims, d⟩)
   | .obs => some ((preaggArr f scale h coords k obs).bind cut)
   | .fcst => some ((preaggArr f scale h coords k fcst).bind cut)
   | .member j =>
